@@ -8,6 +8,11 @@ NOT_APPLICABLE = {
     'C03': 'C++ exception capture/transport/rethrow: CBMC\'s usable front end here is C, extraction drops try/catch, so no contract can mention the behaviour (DESIGN.md §6)',
 }
 CLAIMS = {
+    'C14': {
+        'technique': 'CBMC loop-free harnesses: one arbitrary operation through function_input_base::handle_operations in an arbitrary invariant state (inductive step of the aggregator batch loop) with ghost running-body count; reservable_item_buffer methods with the flag/state representation invariant',
+        'text': 'Inside the aggregator handler of a function node: the concurrency counter equals the number of running bodies and never exceeds the limit, a body task is created only together with ++my_concurrency, every operation gets exactly one status, a message is run, queued or rejected - exactly one - and the reported disposition matches, forwarder_busy is cleared only when nothing was forwarded. Reservable buffers: a reservation is granted iff none is open and the front item exists; consume removes exactly that item, release puts the same item back.',
+        'note': 'Trusted: the aggregator is exclusive (one handler at a time), queue/predecessor cache/task creation as stubs. Not decided: push/pull edge switching, rejection and re-offer between nodes, wait_for_all quiescence, async_node, the topology quantifier.',
+    },
     'C19': {
         'technique': 'rely/guarantee proofs on CBMC with dfcc loop contracts for the collaborative_call_once state word (winner election, helper references, completion) and the ETS slot claim; loop-free / width-bounded harnesses for the ETS hashing and sizing arithmetic',
         'text': 'collaborative_call_once: for any number of threads (SC) the winner is elected only from uninitialized, only the winner completes and only once all helper references are gone, the helper count never carries into the runner pointer bits, and a call returns normally only when the state is done - also after winners that threw. ETS: every probe index lies inside the array for all hashes and lg_size in [2,63]; after the sizing loop the new array is at most half full; a slot key goes empty->k once and belongs to the thread whose CAS installed it.',
